@@ -15,7 +15,7 @@ Definition custom_msg (m : msg) : bool :=
 Lemma exec_custom_bank e c m c' a :
   custom_base m = true -> exec_base e c m = Ok (c', a) -> c_bank c' = c_bank c /\ c_grants c' = c_grants c.
 Proof.
-  intros Hc H. destruct m as [am|dm|pm|f t amt|f t amt et|g r u ex|g r u]; try discriminate; simpl in H.
+  intros Hc H. destruct m as [am|dm|pm|f t amt|f t amt et|g r u ex|g r u|f amt outs]; try discriminate; simpl in H.
   - destruct am as [t d o|t mo d w o|t w o|t k v w o f]; simpl in H;
       match type of H with bind ?x _ = _ => destruct x; simpl in H; try discriminate end;
       inversion H; split; reflexivity.
